@@ -31,7 +31,7 @@ def table(letters):
 
 p = '/verif/DESIGN.md'
 s = open(p).read()
-for name, letters in (('ROUND2', 'def'), ('ROUND3', 'ghi'), ('ROUND4', 'jkl'), ('ROUND5', 'mno')):
+for name, letters in (('ROUND2', 'def'), ('ROUND3', 'ghi'), ('ROUND4', 'jkl'), ('ROUND5', 'mno'), ('ROUND6', 'pqr')):
     b, e = '<!-- %s-SEEDS-BEGIN -->' % name, '<!-- %s-SEEDS-END -->' % name
     if b not in s:
         print(name, 'markers missing')
